@@ -1402,9 +1402,11 @@ class FitBase(FileIOMixin, object):
 
         if file_format in ("yaml", "yml"):
             with open(filename, "r", encoding="utf8") as _f:
-                self._loaded_result_dict = to_numpy_arrays(yaml.safe_load(_f))
+                _new_result_dict = to_numpy_arrays(yaml.safe_load(_f))
         else:
             raise ValueError(f"Unknown file format: {file_format}. Available: yaml")
-        _new_par_vals = self._loaded_result_dict.pop("parameter_values", None)
+        _new_par_vals = _new_result_dict.pop("parameter_values", None)
         if _new_par_vals is not None:
+            # raises if the state belongs to a fit with another number of parameters: nothing has been taken over by then
             self._fitter.set_all_fit_parameter_values(_new_par_vals)
+        self._loaded_result_dict = _new_result_dict
